@@ -45,6 +45,11 @@ type Case struct {
 	// ShareExpr: goroutines that run the same query share ONE expression tree
 	// object (distinct Query values pointing at the same operator nodes).
 	ShareExpr bool
+	// Lockstep: (in-process, work lists of equal length) the goroutines meet
+	// at a bounded spin barrier before every second query, so that they work
+	// on the same position of their lists at the same time whatever the load
+	// of the machine
+	Lockstep bool
 	// Server: run through the -race `updog server` instead of in-process.
 	Server     bool
 	ServerArgs []string
@@ -151,9 +156,23 @@ func oracle(c *Case) (facts, error) {
 	}
 	defer fix.Safe(idx.Close)
 	var execs atomic.Int64
+	var meet []atomic.Int32
+	if c.Lockstep && len(c.Work) > 0 {
+		meet = make([]atomic.Int32, c.Rounds*(len(c.Work[0])/2+1))
+	}
 	maxActive, errs := fanout(len(c.Work), func(g int) error {
 		for r := 0; r < c.Rounds; r++ {
 			for i, q := range c.Work[g] {
+				if meet != nil && i%2 == 0 {
+					if k := r*(len(c.Work[0])/2+1) + i/2; k < len(meet) {
+						meet[k].Add(1)
+						for spin := 0; spin < 200000 && int(meet[k].Load()) < len(c.Work); spin++ {
+							if spin%64 == 63 {
+								runtime.Gosched()
+							}
+						}
+					}
+				}
 				execs.Add(1)
 				if q.Schema {
 					if err := fix.CheckSchema(idx, d); err != nil {
@@ -695,7 +714,7 @@ func hotWrappers(t *testing.T, goroutines, values int) {
 func hotWrappersCfg(t *testing.T, goroutines, values int, oc fix.OpenCfg) {
 	spec := gen.DataSpec{Recipe: &gen.Recipe{N: 3000, Cols: []gen.ColSpec{
 		{Name: "a", Kind: gen.KMod, K: values, Prefix: "v"}, {Name: "b", Kind: gen.KMod, K: 3}}}}
-	c := &Case{Data: spec, Open: oc, Rounds: 1}
+	c := &Case{Data: spec, Open: oc, Rounds: 1, Lockstep: true}
 	for g := 0; g < goroutines; g++ {
 		var w []Q
 		for v := 0; v < values; v++ {
